@@ -334,6 +334,7 @@ class Repo(object):
   def __init__(self, root=None, overrides=None):
     self.root = root or REPO_DIR
     self.overrides = overrides or {}
+    self.accessed = []  # FuncInfo objects requested by rules (dead-code check)
     self.modules = {}
     self.parse_errors = []
     pkg = os.path.join(self.root, 'openhtf')
@@ -376,6 +377,8 @@ class Repo(object):
           if isinstance(d, ast.Attribute) and d.attr == 'setter':
             return f
       raise AnalysisError('anchor setter vanished: %s::%s' % (relpath, qualname))
+    if lst[which] not in self.accessed:
+      self.accessed.append(lst[which])
     return lst[which]
 
   def has_func(self, relpath, qualname):
